@@ -52,6 +52,11 @@ func mutationsFor(raw []byte, d *Decoded, limitPerClass int) []mutation {
 		flOff := pageOff(uint64(d.Meta[d.Active].Freelist), ps)
 		n := int(binary.LittleEndian.Uint16(raw[flOff+10:]))
 		if n > 0 && n < 0xFFFF {
+			// 1a. the HIGHEST free id dropped (when it is the page just below the high-water mark, the scan for
+			//     unreachable-unfreed pages has to reach the very last page)
+			add("unreachable-unfreed", fmt.Sprintf("drop-free-last-%d", n-1), func(raw []byte) {
+				binary.LittleEndian.PutUint16(raw[flOff+10:], uint16(n-1))
+			})
 			for i := 0; i < n; i++ {
 				i := i
 				// 1. a page that is neither reachable nor free
@@ -74,6 +79,15 @@ func mutationsFor(raw []byte, d *Decoded, limitPerClass int) []mutation {
 				}
 			}
 		}
+	}
+	// 1b. the high-water mark raised by one in the active meta (checksum recomputed): the page it now covers is
+	//     neither reachable nor free
+	if d.Active >= 0 && int64(d.Hwm+1)*int64(ps) <= int64(len(raw)) {
+		mo := pageOff(uint64(d.Active), ps) + 16
+		add("unreachable-unfreed", "hwm-raised", func(raw []byte) {
+			binary.LittleEndian.PutUint64(raw[mo+40:], d.Hwm+1)
+			binary.LittleEndian.PutUint64(raw[mo+56:], fnv64a(raw[mo:mo+56]))
+		})
 	}
 	// 3. a page referenced twice (branch element pointing at a sibling's child)
 	for _, b := range branches {
@@ -282,7 +296,7 @@ func CheckC19(c *Ctx) int {
 	c.traces = len(events)
 	c.Cov["evaluations"] = len(events)
 	c.Cov["distinct_nontrivial"] = len(events)
-	c.Cov["rule"] = "one copy per (consistent file, corruption class, eligible page / element): unreachable-unfreed, reachable-free, referenced-twice (branch element and bucket root), overflow-overlap (a page's overflow count raised so that its run covers the next reachable page), freed-twice, invalid-type, key-order (adjacent elements swapped), separator-order (first key of a page lowered below its parent's separator); plus every unmutated file; Tx.Check (array and hash-map backend alternating) and `bbolt check` (exit status) are compared with Consistent(graph) evaluated by TLC; all cases distinct by construction"
+	c.Cov["rule"] = "one copy per (consistent file, corruption class, eligible page / element): unreachable-unfreed (a free id dropped - always including the highest one - or the high-water mark raised by one), reachable-free, referenced-twice (branch element and bucket root), overflow-overlap (a page's overflow count raised so that its run covers the next reachable page), freed-twice, invalid-type, key-order (adjacent elements swapped), separator-order (first key of a page lowered below its parent's separator); plus every unmutated file; Tx.Check (array and hash-map backend alternating) and `bbolt check` (exit status) are compared with Consistent(graph) evaluated by TLC; all cases distinct by construction"
 	return c.Finish(classifyC19)
 }
 
